@@ -47,14 +47,25 @@ RULE = ('histories (3-8 steps quick, 3-17 thorough) of public API calls and USER
         'columns, editing the 2-D / 3-D arrays, recomputing the tables, changing object settings. Streams: random sequences, '
         '[a, b, a] for every fixed kind, one function with 3 settings interleaved, call / edit / call, helpers then peak- and '
         'trough-centred analyses, object histories, group histories. Deep content hashes of every argument object before / '
-        'after every call (an object call may only change its own object). non-trivial = a history in which a call the property '
+        'after every call (an object call may only change its own object; arrays are hashed bytewise, so a NaN sample equals itself). '
+        'Storage of the shared signal objects (signal buffer, refill buffer, 2-D / 3-D arrays), drawn per history: float64 (half), NaN edge '
+        'samples as left by a pre-filter with remove_edges=True (2 / 5 / 12 / a filter half-length on each side), int64 / int16 counts, float32, '
+        'read-only arrays (the clean-room copy is writable: a call that tries to write into the caller\'s array raises in the history and '
+        'returns in the clean room); the find_extrema_kwargs dictionaries include non-default `pad` (False / explicit True), `boundary` and '
+        '`first_extrema` entries, and the dictionary used by the fixed call kinds gets `pad` / `boundary` variants per history. non-trivial = a history in which a call the property '
         'speaks about is compared with its clean-room reference after at least one different call or user edit')
 ASSUMPTIONS = ['per-call frame conditions and history independence of the real code are established only on the explored '
                'histories (partial)',
                'the model lifts per-call purity to all histories with user edits, from any hidden state (proved); the clean-room '
                'comparison over all histories is complete for the hidden states histories can reach (proved)',
                'a by-value copy is a pickle round trip: object identity, memory layout of non-contiguous views and the '
-               'read-only flag of arrays are not part of an argument\'s value',
+               'read-only flag of arrays are not part of an argument\'s value; histories on read-only signal arrays use this: the '
+               'clean-room copy is writable, so a call that writes into the caller\'s array (even if it restores the values '
+               'afterwards) raises in the history and returns in the clean room, which the oracle reports as a difference',
+               'the tables of the shared environment are themselves built by library calls on the shared signal object; its bytes '
+               'are compared before / after that construction (oracle), the other objects are watched from the first step on',
+               'NaN edge samples: the 2-D / 3-D arrays carry them only where every flattened slice keeps them at its two ends '
+               '(the library refuses interior NaN runs with an IndexError; a refusal inside its process pool can dead-lock the pool)',
                'the clean-room oracle is applied to the calls C15 lists and to the object / group entry points that wrap them; '
                'results of other documented helpers are compared in the model comparison only']
 TRUST = ['harness: fork / pipe protocol of harness/props/c15.py (the parent never calls the library: guarded by pid check)']
@@ -83,7 +94,13 @@ SELF = {'bm_fit': 'bm', 'bm_rc': 'bm', 'bg_fit': 'bg', 'bg_rc': 'bg'}      # obj
 
 FSX = [1, 1, 1, 2, 0.5]
 BAND = ['std', 'std', 'narrow', 'wide', 'hi']
-FEK = [None, 'fek', 'fek2', 'fek_ns']
+FEK = [None, 'fek', 'fek2', 'fek_ns', 'fek_nopad', 'fek_nopad', 'fek_first']
+# entry points that refuse a dictionary naming `first_extrema` get it less often
+FEK_CF = [None, 'fek', 'fek2', 'fek_ns', 'fek_nopad', 'fek', 'fek2', 'fek_ns', 'fek_nopad', 'fek_nopad', 'fek_first']
+# per-history variants of env['fek'] (the dictionary the fixed call kinds pass): entries merged into it
+FEKV = [None, None, None, {'pad': False}, {'pad': False}, {'pad': False, 'boundary': 0}, {'pad': True, 'boundary': 6}]
+# per-history storage of the shared signal objects
+SIGV = [None] * 6 + ['nan_edges', 'nan_edges', 'nan_edges', 'int64', 'int16', 'float32', 'readonly', 'readonly']
 PEAK_TABLES = ['df_samples', 'df_shape', 'df']
 SHAPE_TABLES = ['df_shape', 'df_shape_trough', 'df', 'df_trough']
 BURST_TABLES = ['df', 'df_trough', 'df_quiet']
@@ -122,9 +139,9 @@ def _family(name):
 
 
 PGEN = {
-    'cf_p': lambda r: dict(center=r.choice(['peak', 'trough']), method=r.choice(['cycles', 'cycles', 'amp']), fek=r.choice(FEK),
+    'cf_p': lambda r: dict(center=r.choice(['peak', 'trough']), method=r.choice(['cycles', 'cycles', 'amp']), fek=r.choice(FEK_CF),
                            bk=r.choice(['bk', 'bk2']), rs=r.random() < 0.8, **_fsband(r)),
-    'shape_p': lambda r: dict(center=r.choice(['peak', 'trough']), fek=r.choice(FEK), n_cycles=r.choice([2, 3, 5, 7]), **_fsband(r)),
+    'shape_p': lambda r: dict(center=r.choice(['peak', 'trough']), fek=r.choice(FEK_CF), n_cycles=r.choice([2, 3, 5, 7]), **_fsband(r)),
     'band_amp_p': lambda r: dict(table=r.choice(PEAK_TABLES), n_cycles=r.choice([2, 3, 5, 7]), **_fsband(r)),
     'cyclepoints_p': lambda r: dict(fek=r.choice(FEK), **_fsband(r)),
     'find_extrema_p': lambda r: dict(fek=r.choice(FEK), first=r.choice(['peak', 'trough', None]), **_fsband(r)),
@@ -143,7 +160,7 @@ PGEN = {
     'g3d_p': lambda r: _g3d(r),
     'bm_fit': lambda r: _fsband(r),
     'bm_rc': lambda r: dict(red=r.choice([None, 0, 0.05, 0.1])),
-    'bm_new': lambda r: dict(center=r.choice(['peak', 'trough']), method=r.choice(['cycles', 'amp']), fek=r.choice(FEK)),
+    'bm_new': lambda r: dict(center=r.choice(['peak', 'trough']), method=r.choice(['cycles', 'amp']), fek=r.choice(FEK_CF)),
     'bg_fit': lambda r: _bg_fit(r),
     'bg_rc': lambda r: dict(red=r.choice([None, 0, 0.05])),
 }
@@ -193,8 +210,10 @@ OPT_EDITS = [
     ('cfk_amp', ['burst_kwargs'], 'amp_threshes', [[0.3, 1.0]]), ('cfk_amp', ['threshold_kwargs'], 'burst_fraction_threshold', [0.2]),
     ('cfk_rs', [], 'return_samples', [True]), ('e_thr', [], 'min_n_cycles', [2]), ('e_bk', [], 'amp_threshes', [[0.6, 1.4]]),
     ('thr_g', [], 'monotonicity_threshold', [0.3, 0.8]), ('thr_g', [], 'min_n_cycles', [1, 3]),
+    ('fek', [], 'pad', [False, True]), ('fek_nopad', [], 'pad', [True, False]), ('fek_nopad', [], 'boundary', [0, 4]),
+    ('fek_first', [], 'first_extrema', ['peak', None, 'trough']), ('fek_first', [], 'pad', [False]), ('fek2', [], 'pad', [False]),
 ]
-OPT_DELETES = [('fek', [], 'boundary'), ('thr', [], 'amp_fraction_threshold'), ('bk', [], 'min_n_cycles'), ('e_thr', [], 'min_n_cycles'),
+OPT_DELETES = [('fek_nopad', [], 'pad'), ('fek_first', [], 'first_extrema'), ('fek', [], 'boundary'), ('thr', [], 'amp_fraction_threshold'), ('bk', [], 'min_n_cycles'), ('e_thr', [], 'min_n_cycles'),
                ('cfk', [], 'find_extrema_kwargs'), ('cfk_list', [0], 'center_extrema')]
 COL_EDITS = [('df', 'is_burst', 'flip'), ('df', 'volt_amp', 'reverse'), ('df', 'amp_consistency', 'reverse'), ('df', 'monotonicity', 'scale'),
              ('df_shape', 'volt_rise', 'scale'), ('df_shape', 'period', 'scale'), ('df_shape', 'volt_amp', 'reverse'),
@@ -224,9 +243,9 @@ def _gen_mut(r, what=None):
     if k == 'sigs':
         return ['m', 'sigs', {'which': r.choice(['sigs2', 'sigs3']), 'op': r.choice(['scale', 'row', 'neg']), 'c': r.choice([2.0, 0.5])}]
     if k == 'bm':
-        return ['m', 'bm', {'edit': r.choice(['amp', 'cycles', 'trough', 'peak', 'fek2', 'fek', 'rs_false', 'rs_true', 'own_thr', 'thr_item'])}]
+        return ['m', 'bm', {'edit': r.choice(['amp', 'cycles', 'trough', 'peak', 'fek2', 'fek', 'fek_nopad', 'rs_false', 'rs_true', 'own_thr', 'thr_item'])}]
     if k == 'bg':
-        return ['m', 'bg', {'edit': r.choice(['amp', 'cycles', 'trough', 'peak', 'fek2', 'thr_item'])}]
+        return ['m', 'bg', {'edit': r.choice(['amp', 'cycles', 'trough', 'peak', 'fek2', 'fek_nopad', 'thr_item'])}]
     return ['m', k, {}]        # neg, refill, reverse, retable, extrema
 
 
@@ -327,7 +346,15 @@ def cases(rng, tier):
     out = []
 
     def add(kind, steps):
-        out.append({'kind': kind, 'steps': copy.deepcopy(steps), 'sig_kind': rng.choice(['sparse', 'bursty', 'sum']), 'seed': rng.randrange(1000)})
+        c = {'kind': kind, 'steps': copy.deepcopy(steps), 'sig_kind': rng.choice(['sparse', 'bursty', 'sum']), 'seed': rng.randrange(1000)}
+        sigv, nan_k, fekv = rng.choice(SIGV), rng.choice([2, 5, 12, 'filter']), rng.choice(FEKV)
+        if sigv:
+            c['sigv'] = sigv
+            if sigv == 'nan_edges':
+                c['nan_k'] = nan_k
+        if fekv:
+            c['fekv'] = fekv
+        out.append(c)
 
     mixed = CHEAP * 2 + sorted(PLOTS) + sorted(GROUPS) + [n for n in PNAMES if n not in HELPERS] * 3 + HELPERS
     # random sequences over everything; first call = last call
@@ -629,6 +656,28 @@ def _band(fr, b):
     return {'std': (lo, hi), 'narrow': (lo * 1.15, hi * 0.85), 'wide': (lo * 0.8, hi * 1.2), 'hi': (lo * 1.3, hi * 1.3)}[b]
 
 
+SIGNALS = ['sig', 'buf2', 'sigs2', 'sigs3']
+
+
+def _stored(x, c, fs, fr):
+    """the recording as the caller stores it (case field `sigv`): float64 | NaN edge samples (what a pre-filter with
+    remove_edges=True leaves; `nan_k` samples on each side, 'filter' = half the length of a 3-cycle FIR filter of the band) |
+    integer counts | single precision.  'readonly' is applied at the end of `_env` (the flag is not part of the value)."""
+    v = c.get('sigv')
+    x = np.array(x, dtype=float)
+    if v == 'nan_edges':
+        k = c.get('nan_k', 5)
+        if k == 'filter':
+            k = min(len(x) // 6, int(np.ceil(3 * fs / fr[0])) // 2)
+        x[:k] = np.nan
+        x[len(x) - k:] = np.nan
+    elif v in ('int64', 'int16'):
+        x = np.round(x * 1000).astype(v)
+    elif v == 'float32':
+        x = x.astype(np.float32)
+    return x
+
+
 def _env(c):
     import random
     _guard()
@@ -640,10 +689,12 @@ def _env(c):
     sig, fs, fr = s['sig'], s['fs'], tuple(s['f_range'])
     n = len(sig)
     other = gen.signal(random.Random(c['seed'] + 1), kind='bursty', max_len=400)['sig']
+    sig, buf2 = _stored(sig, c, fs, fr), _stored(np.resize(other, n).astype(float), dict(c, nan_k=3), fs, fr)
+    sig_bytes = sig.tobytes()
     thr = {'amp_fraction_threshold': 0.1, 'amp_consistency_threshold': 0.4, 'period_consistency_threshold': 0.4,
            'monotonicity_threshold': 0.6, 'min_n_cycles': 2}
     env = {
-        'sig': sig, 'buf2': np.resize(other, n).astype(float), 'thr': thr, 'thr_amp': {'burst_fraction_threshold': 0.5, 'min_n_cycles': 2},
+        'sig': sig, 'buf2': buf2, 'thr': thr, 'thr_amp': {'burst_fraction_threshold': 0.5, 'min_n_cycles': 2},
         'thr_lo': dict(thr, amp_consistency_threshold=0.2, period_consistency_threshold=0.2, monotonicity_threshold=0.4),
         'thr_g': dict(thr),
         'bk': {'amp_threshes': (0.5, 1.5)}, 'bk2': {'amp_threshes': (0.8, 1.8), 'filter_kwargs': {'n_cycles': 5}},
@@ -651,12 +702,27 @@ def _env(c):
         'bk_feat2': {'fs': fs, 'f_range': fr, 'amp_threshes': (0.3, 1.2), 'min_n_cycles': 2, 'filter_kwargs': {'n_cycles': 5}},
         'fek': {'filter_kwargs': {'n_cycles': 3}, 'boundary': 2}, 'fek2': {'filter_kwargs': {'n_cycles': 5}, 'boundary': 0},
         'fek_ns': {'filter_kwargs': {'n_seconds': 2.5 / fr[0]}},
+        'fek_nopad': {'filter_kwargs': {'n_cycles': 3}, 'pad': False},
+        'fek_first': {'first_extrema': 'peak', 'pad': False, 'boundary': 1},
         'e_thr': {}, 'e_bk': {}, 'bk_min': {'min_n_cycles': 8},
         'sigs2': np.array([sig, sig[::-1].copy()]),
         'cfk': {'threshold_kwargs': dict(thr), 'center_extrema': 'peak'},
         'cfk_list': [{'threshold_kwargs': dict(thr)}, {'threshold_kwargs': dict(thr, monotonicity_threshold=0.2), 'center_extrema': 'peak'}],
     }
     env['sigs3'] = np.array([env['sigs2'], env['sigs2'][::-1]])
+    if c.get('sigv') == 'nan_edges':
+        # the group functions analyse rows one by one or FLATTENED slices (axis=None; 3-D along axis 0 / 1): the missing samples are
+        # laid out so that every flattened slice has them at its two ends only (interior NaN runs are refused by the library with an
+        # IndexError, and a refusal inside the library's process pool can dead-lock the pool on its way out)
+        k = int(np.argmin(np.isnan(sig)))
+        fin = np.array(s['sig'], dtype=float)
+        env['sigs2'] = np.array([fin, fin[::-1].copy()])
+        env['sigs3'] = np.array([env['sigs2'], env['sigs2'][::-1]])
+        env['sigs2'][0, :k] = np.nan
+        env['sigs2'][1, n - k:] = np.nan
+        env['sigs3'][0, 0, :k] = np.nan
+        env['sigs3'][1, 1, n - k:] = np.nan
+    env['fek'].update(copy.deepcopy(c.get('fekv') or {}))
     env['df'] = compute_features(sig, fs, fr, threshold_kwargs=copy.deepcopy(thr))
     env['df_shape'] = compute_shape_features(sig, fs, fr)
     # a table without any burst (strict thresholds): shortcut paths must not write into it either
@@ -684,7 +750,12 @@ def _env(c):
     env['bm'] = bm
     env['bm_df'] = bm.df_features
     env['bg'] = BycycleGroup(thresholds=env['thr_g'], find_extrema_kwargs=env['fek'])
-    return env, fs, fr
+    if c.get('sigv') == 'readonly':
+        for k in SIGNALS:
+            env[k].setflags(write=False)
+    # the analyses that built the tables above were calls on the shared signal object too
+    touched = None if sig.tobytes() == sig_bytes else int(np.sum(np.frombuffer(sig.tobytes(), dtype=np.uint8) != np.frombuffer(sig_bytes, dtype=np.uint8)))
+    return env, fs, fr, touched
 
 
 def _readback(jitter=False):
@@ -835,7 +906,7 @@ def _param(name, a, env, fs, fr):
     if name == 'cyclepoints_p':
         return compute_cyclepoints(sig, fs2, fr2, **(fek or {}))
     if name == 'find_extrema_p':
-        return find_extrema(sig, fs2, fr2, first_extrema=a['first'], **(fek or {}))
+        return find_extrema(sig, fs2, fr2, **dict({'first_extrema': a['first']}, **(fek or {})))
     if name == 'burst_p':
         return compute_burst_features(env[a['table']], sig, burst_method=a['method'], burst_kwargs=env[a['bk']] if a['method'] == 'amp' else None)
     if name == 'burst_fraction_p':
@@ -922,12 +993,23 @@ def _exec(st, env, fs, fr):
 def _mutate(st, env, fs, fr):
     """what a user may do to his own objects between two calls"""
     _guard()
+    locked = [env[k] for k in SIGNALS if not env[k].flags.writeable]
+    for arr in locked:
+        arr.setflags(write=True)
+    try:
+        _mutate1(st, env, fs, fr)
+    finally:
+        for arr in locked:
+            arr.setflags(write=False)
+
+
+def _mutate1(st, env, fs, fr):
     name, a = st[1], st[2]
     sig = env['sig']
     if name == 'scale':
-        sig *= a['c']
+        sig[:] = sig * a['c']              # = `sig *= c` for floating-point storage; integer storage truncates
     elif name == 'shift':
-        sig += a['c']
+        sig[:] = sig + a['c']
     elif name == 'neg':
         np.negative(sig, out=sig)
     elif name == 'refill':
@@ -954,11 +1036,14 @@ def _mutate(st, env, fs, fr):
     elif name == 'sigs':
         arr = env[a['which']]
         if a['op'] == 'scale':
-            arr *= a['c']
+            arr[...] = arr * a['c']
         elif a['op'] == 'neg':
             np.negative(arr, out=arr)
         else:
-            arr[-1] = arr[0][..., ::-1].copy()
+            src = arr[0][..., ::-1].copy()
+            if src.dtype.kind == 'f':
+                src[np.isnan(src)] = 0.0          # keeps missing samples at the ends of every flattened slice (see _env)
+            arr[-1] = src
     elif name == 'retable':
         from bycycle.features import compute_features, compute_shape_features, compute_cyclepoints
         env['df_shape'] = compute_shape_features(sig, fs, fr)
@@ -973,7 +1058,7 @@ def _mutate(st, env, fs, fr):
             o.burst_method, o.thresholds, o.burst_kwargs = 'cycles', env['thr'] if name == 'bm' else env['thr_g'], {}
         elif e in ('trough', 'peak'):
             o.center_extrema = e
-        elif e in ('fek', 'fek2'):
+        elif e in ('fek', 'fek2', 'fek_nopad'):
             o.find_extrema_kwargs = env[e]
         elif e in ('rs_false', 'rs_true'):
             o.return_samples = e == 'rs_true'
@@ -993,12 +1078,19 @@ def _history(c, ref):
     for a clean-room execution of one call"""
     t0 = time.time()
     try:
-        env, fs, fr = _env(c)
+        try:
+            env, fs, fr, touched = _env(c)
+        except Exception:
+            if c.get('sigv') != 'nan_edges' or c.get('nan_k') == 2:
+                raise
+            # the library refuses some recordings with long NaN edges (argmin of an empty half-wave): not a C15 matter; the
+            # history then runs on the same recording with two missing samples on each side
+            env, fs, fr, touched = _env(dict(c, nan_k=2))
     except Exception as e:
         return {'skip': 'environment: %s %s' % (exc_kind(e), str(e)[:100])}
     keys = sorted(env)
     cur = [_h(env[k]) for k in keys]
-    out = {'keys': keys, 'env0': cur, 'steps': [], 'n_ref': 0, 'ref_s': 0.0}
+    out = {'keys': keys, 'env0': cur, 'steps': [], 'n_ref': 0, 'ref_s': 0.0, 'env_touched': touched}
     for st in c['steps']:
         if st[0] == 'm':
             err = None
@@ -1158,6 +1250,10 @@ def _model_only(name):
 def oracle(c, o):
     if 'skip' in o:
         return None
+    if o.get('env_touched'):
+        return ('building the shared tables (compute_features with default options / both centrings / the amplitude method, '
+                'compute_shape_features, compute_cyclepoints, find_extrema, epoch_df, Bycycle.fit on ONE signal array) modified the '
+                'caller\'s signal array (%d bytes differ)' % o['env_touched'])
     cur, seen = o['env0'], []
     for i, (st, s) in enumerate(zip(c['steps'], o['steps'])):
         if s['t'] != 'c':
@@ -1186,7 +1282,7 @@ def nontrivial(c, o):
                for i, (st, s) in enumerate(zip(c['steps'], o['steps'])))
 
 
-_STATS = {'n_ref': 0, 'ref_s': 0.0, 'hist_s': 0.0, 'raised': 0, 'calls': 0, 'edits': 0}
+_STATS = {'n_ref': 0, 'ref_s': 0.0, 'hist_s': 0.0, 'raised': 0, 'calls': 0, 'edits': 0, 'storage': {}}
 
 
 def kind_of(c, o):
@@ -1197,13 +1293,19 @@ def kind_of(c, o):
         _STATS['calls'] += len(_calls(o))
         _STATS['edits'] += len(o['steps']) - len(_calls(o))
         _STATS['raised'] += sum(1 for s in _calls(o) if s['exc'])
+        k = 'signal:%s%s' % (c.get('sigv') or 'float64', '' if not c.get('fekv') else ' fek:' + json.dumps(c['fekv'], sort_keys=True))
+        st = _STATS['storage'].setdefault(k, {'histories': 0, 'calls': 0, 'calls_that_raised': 0})
+        st['histories'] += 1
+        st['calls'] += len(_calls(o))
+        st['calls_that_raised'] += sum(1 for s in _calls(o) if s['exc'])
     return c['kind'] + ('/skip' if 'skip' in o else '/some-call-raised' if any(s['exc'] for s in _calls(o)) else '')
 
 
 def extra_evidence():
     return {'cleanroom': {'reference_calls': _STATS['n_ref'], 'reference_cpu_wall_s_summed_over_workers': round(_STATS['ref_s'], 1),
                           'history_cpu_wall_s_summed_over_workers': round(_STATS['hist_s'], 1), 'calls': _STATS['calls'],
-                          'user_edits': _STATS['edits'], 'calls_that_raised_in_history': _STATS['raised']}}
+                          'user_edits': _STATS['edits'], 'calls_that_raised_in_history': _STATS['raised']},
+            'signal_storage_and_fek_variants': dict(sorted(_STATS['storage'].items()))}
 
 
 def coq_case(c, o):
